@@ -451,8 +451,10 @@ def run(model, rep, tier):
     from rules.c06 import check_transfer
     from rules.c03 import _Rename
     check_transfer(model, _Rename(rep, {'R06.4': 'R01.8'}))
-    from rules.c06 import check_inflate_transfer
+    from rules.c06 import check_inflate_transfer, check_transfer_sound, check_einsum_transfer
     check_inflate_transfer(model, _Rename(rep, {'R06.4': 'R01.8'}))
+    check_einsum_transfer(model, _Rename(rep, {'R06.4': 'R01.8'}))
+    check_transfer_sound(model, _Rename(rep, {'R06.4': 'R01.8'}))
     from rules import round4 as _r4
     rep.rule('R01.12', 'slices of one operand list spread into a rebuilt node tile it up to single removed elements (= R02.15)')
     _r4.check_tiling_slices(model, rep, 'R01.12')
